@@ -699,7 +699,7 @@ def normalise(case, rng=None):
 
 
 def generate(rng, tier, scale, kinds=None, **focus):
-    n = (1800 if tier == 'quick' else 40000) * scale
+    n = (1800 if tier == "quick" else 60000) * scale
     for _ in range(n):
         yield gen_case(rng, tier, kinds)
     if tier == 'thorough' and not kinds:
